@@ -1219,7 +1219,13 @@ static void SwitchTo_MN1610_Alt(void) {
 /*--------------------------------------------------------------------------*/
 /* Initialisierung */
 
+static void InitCode_MN1610_Alt(void) {
+    BaseRegVals[0] = BaseRegVals[1] = BaseRegVals[2] = BaseRegVals[3] = 0;
+}
+
 void codemn2610_init(void) {
     CPUMN1610 = AddCPU("MN1610ALT", SwitchTo_MN1610_Alt);
     CPUMN1613 = AddCPU("MN1613ALT", SwitchTo_MN1610_Alt);
+
+    AddInitPassProc(InitCode_MN1610_Alt);
 }
